@@ -280,6 +280,10 @@ impl<F: Function> Worker<F> {
 
 /// Cross-budget simplification (VM only): `simplify_with::<M>`
 pub trait Cross: Function {
+    /// A trace of the right length for this function that decides nothing
+    /// (`Choice::Both` everywhere), or `None` if the length is not known
+    /// (`like`: any trace an evaluator reported for this function)
+    fn undecided_trace(&self, like: Option<&Self::Trace>) -> Option<Self::Trace>;
     /// Returns the child's float-slice values at `pts` and its size, or
     /// `None` if this backend has no cross-budget simplification
     fn cross(
@@ -338,6 +342,11 @@ fn cross_one<const N: usize, const M: usize>(
 }
 
 impl<const N: usize> Cross for GenericVmFunction<N> {
+    fn undecided_trace(&self, _like: Option<&VmTrace>) -> Option<VmTrace> {
+        let mut t = VmTrace::default();
+        t.resize(self.choice_count(), fidget_core::vm::Choice::Both);
+        Some(t)
+    }
     fn cross(
         &self,
         trace: &VmTrace,
@@ -367,6 +376,11 @@ impl<const N: usize> Cross for GenericVmFunction<N> {
 }
 
 impl Cross for JitFunction {
+    fn undecided_trace(&self, like: Option<&VmTrace>) -> Option<VmTrace> {
+        let mut t = like?.clone();
+        t.fill(fidget_core::vm::Choice::Both);
+        Some(t)
+    }
     fn cross(
         &self,
         _trace: &VmTrace,
@@ -1063,6 +1077,28 @@ impl<'a, F: Function + MathFunction + Clone + Cross> World<'a, F> {
         x.sort();
         y.sort();
         x == y
+    }
+
+    /// Simplification with a trace that decides nothing (`Both` everywhere; the
+    /// empty trace of a choice-free function).  No evaluator hands such a
+    /// trace out, but it is a legal argument (both branches are always a sound
+    /// choice) and C10 speaks of every simplify call: the child built with
+    /// reused objects must be the child built with fresh ones, also when it is
+    /// evaluated and simplified again later in the history.  C10 mode only
+    /// (C04 is about traces an evaluator returned).
+    fn op_simplify_undecided(&mut self, w: usize, s: usize) {
+        let like = self.slots[s].trace.as_ref().map(|t| &t.0);
+        let Some(tr) = self.slots[s].dirty.undecided_trace(like) else {
+            return self.op_eval(w, s);
+        };
+        let nvars = self.slots[s].dirty.vars().len();
+        let dom = self.slots[s]
+            .valid
+            .clone()
+            .unwrap_or(Domain::Box(vec![(-1.0, 1.0); nvars]));
+        self.rep.count("op.simplify_with_undecided_trace", 1);
+        self.slots[s].trace = Some((tr, dom));
+        self.op_simplify(w, s);
     }
 
     fn op_simplify(&mut self, w: usize, s: usize) {
@@ -2124,7 +2160,9 @@ impl<'a, F: Function + MathFunction + Clone + Cross> World<'a, F> {
         match op {
             0 => self.op_eval(w, s),
             1 => {
-                if self.slots[s].trace.is_some() {
+                if self.mode == Mode::C10 && self.ch(|c| c.odds("undecided_trace", 1, 5)) {
+                    self.op_simplify_undecided(w, s)
+                } else if self.slots[s].trace.is_some() {
                     self.op_simplify(w, s)
                 } else {
                     self.op_eval(w, s)
